@@ -1176,6 +1176,9 @@ def node(spec: t.Any) -> Node:
     if k == 'tagged':
         from . import cg
         return cg.TaggedNode(spec)
+    if k == 'gbox':
+        from . import cg
+        return cg.GBoxNode(spec)
     if k == 'nd':
         from . import npn
         return npn.NdNode(spec)
